@@ -19,7 +19,13 @@ From OQ Require Import Model.Progress.
 Import ListNotations.
 Definition code (t : timer) : nat := match t_stat t with New => 0 | Armed => 1 | Cancelled => 2 | Fired => 3 end.
 Definition obs (ops : list fop) : list nat :=
-  let s := fold_left fstep ops init in pending s :: map code (timers s)."""
+  let s := fold_left fstep ops init in pending s :: map code (timers s).
+Definition pcode (e : pev) : nat := match e with PEnter => 0 | PUpdate => 1 | PExit => 2 end.
+(* the calls of one API run: number of updates of each call, and whether the last one raised *)
+Definition paths (upd : list nat) (raised : bool) : list (list outcome) :=
+  let n := length upd in
+  map (fun p => repeat Go (snd p) ++ (if raised && Nat.eqb (S (fst p)) n then [Raise] else [])) (combine (seq 0 n) upd).
+Definition api_log (upd : list nat) (raised : bool) : list nat := map pcode (calls_log 0 (paths upd raised))."""
 
 STAT = {"new": 0, "armed": 1, "cancelled": 2, "fired": 3}
 
@@ -655,6 +661,19 @@ def run(chk):
                 chk.count("api_" + name)
                 info = {"kind": "bracket", "api": name, "fail_at_evaluation": k, "raised": raised, "log": log}
                 chk.case(info, ("bracket", name, k))
+                # the log of the run against the call-path model (theorem every_path_exits): every call is enter, its updates, exit --
+                # whichever way it ends.  The updates of each call are read off the log; the model supplies the exits
+                ev_ = [e_ for e_ in log if e_ != "init"]
+                upd_ = []
+                for e_ in ev_:
+                    if e_ == "enter":
+                        upd_.append(0)
+                    elif e_ == "update" and upd_:
+                        upd_[-1] += 1
+                if ev_ and ev_[0] == "enter" and len(upd_) <= 40 and max(upd_) <= 200:
+                    exprs.append(f"api_log {coq_list([str(u_) for u_ in upd_])} {'true' if raised else 'false'}")
+                    expected.append([{"enter": 0, "update": 1, "exit": 2}[e_] for e_ in ev_])
+                    meta.append({"kind": "bracket-path", "api": name, "fail_at_evaluation": k, "raised": raised})
                 balanced = log.count("enter") == log.count("exit")
                 if not balanced:
                     chk.fail("exit-skipped:" + name,
